@@ -42,10 +42,11 @@ Proof.
   destruct o as [|c o]; vm_compute; discriminate.
 Qed.
 
-(* id(f()) + h(): the call of a function without side effects hides the side effect of its argument *)
+(* id(f()) + h(): before /repo 7b4cb3f the call of a function without side effects hid the side effect of its
+   argument and the two operands were unsequenced; now both are marked and sequenced *)
 Definition e_wrapper : expr := EBin AAdd (ECall 4 [ECall 1 []]) (ECall 3 []).
-Lemma order_refuted_wrapper : exists o, nelua_run fe_w e_wrapper st_w o <> lua_run fe_w e_wrapper st_w.
-Proof. exists [1%nat]. vm_compute. discriminate. Qed.
+Lemma order_wrapper_sequenced : forall o, nelua_run fe_w e_wrapper st_w o = lua_run fe_w e_wrapper st_w.
+Proof. intros o. destruct o as [|c o]; vm_compute; reflexivity. Qed.
 
 (* show(bump(), bump()): bump writes through a record field.  Before /repo 9e49985 the analyzer did not
    mark it and the two calls were emitted unsequenced; now both arguments are hoisted into temporaries
